@@ -670,6 +670,12 @@ fn replay(args: &Args) {
             }
             return vec![];
         }
+        // every prefix of this behaviour is an emitted behaviour of its own: what happened before the last step is reported there
+        let last = (hist.len() - 1) as u64;
+        let relevant = problems.iter().any(|p| p["step"].as_u64() == Some(last) || matches!(p["kind"].as_str(), Some("stuck" | "harness_error" | "path" | "blocked")));
+        if !relevant && !keep_all {
+            return vec![];
+        }
         vec![json!({"case": i, "kind": "problems", "problems": problems, "cfg": case["cfg"], "hist": case["hist"], "obs": case["obs"]})]
     });
     let mut f = std::fs::OpenOptions::new().append(true).open(&out).expect("reopen out");
